@@ -6,6 +6,7 @@
 EXTENDS IR, BVInt, TLC
 VARIABLES a, b
 Init == a \in U8 /\ b = 0
+InitQ == a \in {0, 1, 2, 3, 5, 8, 16, 31, 64, 100, 127, 128, 129, 200, 254, 255} /\ b = 0   \* quick tier
 Next == b < 255 /\ b' = b + 1 /\ a' = a
 
 V(n, s) == [n |-> n, s |-> s, t |-> FALSE]
@@ -48,6 +49,20 @@ DivTotal == \A op \in {"IntDiv", "IntSDiv", "IntRem", "IntSRem"} :
    LET r == EvalExpr(Bin(op, Var("X", 1), Var("Y", 1)), Regs)
    IN IF b = 0 THEN r = (IF op \in {"IntDiv", "IntSDiv"} THEN <<255>> ELSE <<a>>)
       ELSE r = AsBv(IBinOp(op, a, b), 1)
+
+\* the linear-time operators of IR.tla agree with BV.tla on 2- and 3-byte vectors
+WideOps == EqualWidthOps \ {"IntDiv", "IntSDiv", "IntRem", "IntSRem"}
+WideAgree ==
+  LET x2 == <<a, b>>  y2 == <<b, (a * 7 + 3) % 256>>
+      x3 == <<a, b, 255 - a>>  y3 == <<b, a, (b * 5 + 1) % 256>>
+  IN /\ \A op \in WideOps : IrBinOp(op, x2, y2) = BvBinOp(op, x2, y2) /\ IrBinOp(op, x3, y3) = BvBinOp(op, x3, y3)
+     /\ \A op \in WideOps : IrBinOp(op, x2, x2) = BvBinOp(op, x2, x2)
+     /\ IrUnOp("Int2Comp", x3) = BvNeg(x3)
+     /\ (a + b > 0 => /\ FUDivRem(y2, x2) = BvUDivRem(y2, x2)
+                      /\ \A op \in {"IntDiv", "IntSDiv", "IntRem", "IntSRem"} : IrBinOp(op, y2, x2) = BvBinOp(op, y2, x2))
+     /\ AddrSeq(<<a, b, 255>>, 3) = <<AddrPlus(<<a, b, 255>>, 0), AddrPlus(<<a, b, 255>>, 1), AddrPlus(<<a, b, 255>>, 2)>>
+     /\ AddrPlus(<<a, b, 255>>, 2) = BvAdd(<<a, b, 255>>, <<2, 0, 0>>)
+     /\ AddrPlus(<<a, b, 0>>, -3) = BvSub(<<a, b, 0>>, <<3, 0, 0>>)
 
 \* the invalid rewrite of DESIGN.md section 7 really is invalid in this semantics, the valid one is valid
 RewriteSanity ==
